@@ -145,8 +145,19 @@ def showIter (ctl : Nat) (r : IterOut) : String :=
   match r.bad with
   | some .fault => "signal 11"
   | some .panic => "panic"
+  | some .abort => "signal 6"
   | some .fuel => "fuel"
   | none => if inBounds ctl r.reads then showMsgs r.msgs else "oob " ++ showMsgs r.msgs
+
+/-- the specification walk, printed: `off:len:level:type` per well-formed header, then why it stopped -/
+def showWalk (w : List (Nat × Hdr) × Stop) : String :=
+  let hs := if w.1.isEmpty then "-" else ",".intercalate (w.1.map fun (o, h) => s!"{o}:{h.len}:{h.level}:{h.typ}")
+  let st := match w.2 with
+    | .done => "done"
+    | .malformed o h => s!"malformed@{o}:{h.len}:{h.level}:{h.typ}"
+    | .unmapped => "unmapped"
+    | .fuel => "fuel"
+  s!"{hs} {st}"
 
 end C16Cmsg
 
@@ -192,9 +203,24 @@ def step (_ : Unit) (line : String) : Unit × String :=
         if place == "guard" then
           if img.length < ctl then "bad-op" else
           -- nothing is mapped after the buffer, except the < 8 bytes of slack up to the next 8-byte boundary
-          showIter ctl (Cmsg.iterate (img.take (Cmsg.cmsgAlign ctl)) ctl)
-        else if place == "tail" then showIter ctl (Cmsg.iterate img ctl)
+          showIter ctl (Cmsg.iterate Cmsg.NOMINAL_BASE (img.take (Cmsg.cmsgAlign ctl)) ctl)
+        else if place == "tail" then showIter ctl (Cmsg.iterate Cmsg.NOMINAL_BASE img ctl)
         else "bad-op"
+      | _, _ => "bad-op"
+    | ["cmsgraw", ctl, img] =>
+      -- the memory is exactly `img` (a multiple of 8 bytes, nothing mapped after it), the control buffer its first `ctl` bytes
+      match ctl.toNat?, Drv.unhex img with
+      | some ctl, some img =>
+        if img.length < ctl || img.length % 8 != 0 || img.isEmpty then "bad-op" else
+        showIter ctl (Cmsg.iterate Cmsg.NOMINAL_BASE img ctl)
+      | _, _ => "bad-op"
+    | ["cmsgwf", ctl, img] =>
+      match ctl.toNat?, Drv.unhex img with
+      | some ctl, some img =>
+        if img.length < ctl then "bad-op" else
+        let wu := Cmsg.wfPrefix Cmsg.uNext img ctl
+        let wk := Cmsg.wfPrefix Cmsg.kNext img ctl
+        s!"u {showWalk wu} k {showWalk wk} rights " ++ showMsgs (Cmsg.rightsOf img wu.1)
       | _, _ => "bad-op"
     | ["cmsgold", fa, la, ctl, img] =>
       match fa.toNat?, la.toNat?, ctl.toNat?, Drv.unhex img with
@@ -207,7 +233,7 @@ def step (_ : Unit) (line : String) : Unit × String :=
         let msgs := nfds.map fun n => (List.range n).map (· + 100)
         let g := List.replicate (len + 64) 170
         let (mem, ctl) := Cmsg.kernelFill msgs len g
-        let r := Cmsg.iterate (mem.take (Cmsg.cmsgAlign len)) ctl
+        let r := Cmsg.iterate Cmsg.NOMINAL_BASE (mem.take (Cmsg.cmsgAlign len)) ctl
         let shape := fun (ms : List (List Nat)) => if ms.isEmpty then "-" else ",".intercalate (ms.map (toString ·.length))
         match r.bad with
         | some .fault => "signal 11"
